@@ -156,8 +156,8 @@ Proof.
     apply (Hfin (s', outs)). eapply LK_on_remove_worker; [| |exact H].
     + apply QSTMT_QA. destruct (inv_qs _ HI) as (_ & Q1 & Q2 & _). split; assumption.
     + apply WI_worker_sets_ok. exact (inv_w _ HI).
-  - apply jc_quiet. exact (handle_submit_array_tids _ _ _ _ _ _ _ _ _ _ H).
-  - destruct (bad_graph_rq _ _); [inversion H; subst; apply jc_quiet; reflexivity|].
+  - destruct (bad_submit_lengths _ _); [inversion H; subst; apply jc_quiet; reflexivity|]. apply jc_quiet. exact (handle_submit_array_tids _ _ _ _ _ _ _ _ _ _ H).
+  - destruct (bad_graph_rq _ _); [inversion H; subst; apply jc_quiet; reflexivity|]. destruct (dead_dep _ _ _); [inversion H; subst; apply jc_quiet; reflexivity|].
     apply jc_quiet. exact (handle_submit_graph_tids _ _ _ _ _ _ H).
   - apply jc_quiet. unfold handle_open in H. inversion H; subst. reflexivity.
   - apply jc_quiet. unfold handle_close in H.
